@@ -7,7 +7,7 @@ CONSTANTS
   Hours = {0, 1, 12, 13, 23, 24}
   MinSecs = {0, 1, 59}
   Weeks = {1, 9, 10, 52, 53}
-  Amounts = {"1", "2", "10", "100", "0.5", "1.5", "01", ".5", "1.50"}
+  Amounts = {"1", "2", "10", "100", "0.5", "1.5", "01", ".5", "1.50", "10.0", "30.00"}
 INVARIANT MechContract
 INVARIANT MechDenotation
 INVARIANT MechTypesStable
